@@ -4,11 +4,11 @@
 (* Level I (SplitNetloc, ExplicitPort, Str, HostSubcomponent) against the  *)
 (* Level A port table (C17_* clauses of ContractUrl).                      *)
 (***************************************************************************)
-EXTENDS ContractUrl, ImplUrl, TLC
+EXTENDS ContractUrl, ImplOps, TLC
 
 Schemes == { <<>>, <<104,116,116,112>>, <<104,116,116,112,115>>, <<119,115>>, <<119,115,115>>, <<102,116,112>>, <<120>> }
 UserInfos == { <<>>, <<117,64>>, <<117,58,112,64>> }               \* "", "u@", "u:p@"
-Hosts == { <<104>>, <<49,46,50,46,51,46,52>>, <<91,58,58,49,93>>, <<91,102,101,56,48,58,58,49,37,50,53,101,93>>, <<104,46>> }
+Hosts == { <<104>>, <<49,46,50,46,51,46,52>>, <<91,58,58,49,93>>, <<91,102,101,56,48,58,58,49,37,50,53,101,93>>, <<104,46>>, <<>>, <<72,46,67>> }   \* h 1.2.3.4 [::1] [fe80::1%25e] h. (empty) H.C
 PortTexts == { <<>>, <<58>>, <<58,48>>, <<58,49>>, <<58,50,49>>, <<58,56,48>>, <<58,48,56,48>>, <<58,56,49>>, <<58,52,52,51>>,
                <<58,54,53,53,51,53>>, <<58,54,53,53,51,54>>, <<58,57,57,57,57,57,57>>, <<58,45,49>>, <<58,97>>, <<58,56,97>>, <<58,43,56,48>> }
 
@@ -34,5 +34,19 @@ Inv_Fallback == C17_PortFallback(Obs)
 Inv_Range == C17_Range(Obs)
 Inv_StrPort == C17_StrPort(Obs)
 Inv_HostPortSub == C17_HostPortSub(Obs)
+\* C09: what encode_url pre-fills (eager) equals what _cache_netloc derives later from the stored netloc (lazy).
+\* The string form of the cell is its own source text here (str of the five parts, re-parsed by the eager route).
+SourceText == UnsplitResult(u.scheme, u.netloc, u.path, u.query, u.fragment)
+EmptyHostCell == SplitAuthority(u.netloc).host = <<>>
+Inv_EagerIsLazy ==
+  LET e == EagerCache("c", SourceText) r == EncodeUrl("c", SourceText) IN
+  ("none" \in DOMAIN e \/ ~IsOK(r)) \/ EmptyHostCell \/
+    /\ OK(e.raw_host) = RawHost(r.ok) /\ OK(e.explicit_port) = ExplicitPort(r.ok)
+    /\ OK(e.raw_user) = RawUser(r.ok) /\ OK(e.raw_password) = RawPassword(r.ok)
+Inv_EagerIsLazy_NoExclusion ==
+  LET e == EagerCache("c", SourceText) r == EncodeUrl("c", SourceText) IN
+  ("none" \in DOMAIN e \/ ~IsOK(r)) \/
+    /\ OK(e.raw_host) = RawHost(r.ok) /\ OK(e.explicit_port) = ExplicitPort(r.ok)
+    /\ OK(e.raw_user) = RawUser(r.ok) /\ OK(e.raw_password) = RawPassword(r.ok)
 Inv_PortText == C07_AuthoritySplit(Obs @@ [raw_user |-> Opt(RawUser(u)), raw_password |-> Opt(RawPassword(u)), raw_host |-> Opt(RawHost(u))])
 =============================================================================
